@@ -537,8 +537,10 @@ theorem step_outs_f (a : Agent) (e : Ev) (hst : a.started = true) (hk : keeps e 
     simp only [step]
     split
     · simp
-    · have := (runForced_psel (a.addRemoteCandidate c).1 now (Or.inl (by simp [hsel]))).2
-      simp [this]
+    · split
+      · simp
+      · have := (runForced_psel (a.addRemoteCandidate c).1 now (Or.inl (by simp [hsel]))).2
+        simp [this]
   | start now ctl ru rp => simp only [step, hst]; ok_cases
   | setRemoteCreds ru rp => simp only [step]; ok_cases
   | advance now => exact (runTimers_psel a now 100000 (Or.inl hsel)).2
